@@ -157,7 +157,7 @@ func (s *Solver) ref(t *term.Term) string {
 	}
 	name := fmt.Sprintf("t%d", t.ID)
 	if t.Op == term.OpVar {
-		name = "|" + t.Name + "|"
+		name = "|v." + t.Name + "|"
 	}
 	if s.isDefined(t.ID) {
 		return name
@@ -349,7 +349,7 @@ func Script(ts []*term.Term, header string) string {
 		}
 		name := fmt.Sprintf("t%d", t.ID)
 		if t.Op == term.OpVar {
-			name = "|" + t.Name + "|"
+			name = "|v." + t.Name + "|"
 		}
 		if defined[t.ID] {
 			return name
@@ -415,4 +415,65 @@ func RunScript(bin string, args []string, script string, timeout time.Duration) 
 		}
 	}
 	return res
+}
+
+// OneShot decides the conjunction of ts with a fresh non-incremental solver process (z3's one-shot tactics often
+// decide bit-vector queries that the incremental core gives up on). On sat, vars are evaluated.
+func OneShot(bin string, args []string, ts []*term.Term, vars []*term.Term, timeout time.Duration) (Result, map[string]uint64) {
+	script := Script(ts, "")
+	if len(vars) > 0 {
+		var sb strings.Builder
+		for _, v := range vars {
+			sb.WriteString(fmt.Sprintf("(get-value (|v.%s|))\n", v.Name))
+		}
+		script += sb.String()
+	}
+	cmd := exec.Command(bin, args...)
+	cmd.Stdin = strings.NewReader(script)
+	done := make(chan struct{})
+	var out []byte
+	go func() { out, _ = cmd.CombinedOutput(); close(done) }()
+	select {
+	case <-done:
+	case <-time.After(timeout):
+		if cmd.Process != nil {
+			cmd.Process.Kill()
+		}
+		<-done
+		return Unknown, nil
+	}
+	lines := strings.Split(string(out), "\n")
+	res := Unknown
+	model := map[string]uint64{}
+	declared := map[string]bool{}
+	for _, v := range vars {
+		declared[v.Name] = true
+	}
+	for _, l := range lines {
+		l = strings.TrimSpace(l)
+		switch {
+		case l == "sat":
+			res = Sat
+		case l == "unsat":
+			return Unsat, nil
+		case strings.HasPrefix(l, "((|v."):
+			// ((|v.name| #x...))
+			rest := l[5:]
+			i := strings.Index(rest, "| ")
+			if i < 0 {
+				continue
+			}
+			name := rest[:i]
+			if v, ok := parseValue(rest[i+1:]); ok {
+				model[name] = v
+			}
+		case strings.HasPrefix(l, "(error") && res != Sat:
+			// an error before check-sat makes the answer meaningless; errors from get-value of variables that do
+			// not occur in the script are harmless
+			if !strings.Contains(l, "unknown constant") && !strings.Contains(l, "get-value") {
+				return Unknown, nil
+			}
+		}
+	}
+	return res, model
 }
